@@ -174,8 +174,12 @@ func (e *Engine) addObl(st *State, kind, label, site string, goal *Term) {
 	if kind == "reach" {
 		src = st.core
 	}
-	pc := make([]*Term, len(src))
-	copy(pc, src)
+	var pc []*Term
+	if !(goal.IsTrue() && kind != "reach") {
+		// (obligations decided by the simplifier need no path condition)
+		pc = make([]*Term, len(src))
+		copy(pc, src)
+	}
 	e.obls = append(e.obls, &Obligation{ID: id, Kind: kind, Site: site, Harness: e.harness, Case: e.caseLabel, pc: pc, goal: goal})
 }
 
@@ -643,8 +647,21 @@ func (e *Engine) pdom(fn *ssa.Function) *pdInfo {
 					stack = append(stack, pr)
 				}
 			}
-			p.loops = append(p.loops, body)
-			p.headers = append(p.headers, h.Index)
+			// loops with the same header are one loop
+			merged := false
+			for li := range p.loops {
+				if p.headers[li] == h.Index {
+					for b := range body {
+						p.loops[li][b] = true
+					}
+					merged = true
+					break
+				}
+			}
+			if !merged {
+				p.loops = append(p.loops, body)
+				p.headers = append(p.headers, h.Index)
+			}
 		}
 	}
 	e.pd[fn] = p
